@@ -189,6 +189,21 @@ pub fn alphabet(n: usize, c: &AlphaCfg) -> Vec<Dev> {
             true
         }));
     }
+    // the enum-level prefix belongs to the PRINTED name only; the parser accepts the bare spellings
+    devs.push(dev("prefix=\"p/\" (printing only)", &["prefix"], |s| {
+        s.prefix = Some("p/".into());
+        true
+    }));
+    // doubled braces in a to_string / serialize literal are text for the parser (it accepts the literal as written)
+    for i in 0..n.min(2) {
+        devs.push(dev(format!("v{}.to_string=\"{{{{n}}}}\"", i), &[&format!("tos{}", i)], move |s| {
+            if i >= s.variants.len() {
+                return false;
+            }
+            s.variants[i].to_string = Some("{{n}}".into());
+            true
+        }));
+    }
     if c.enum_aci {
         devs.push(dev("enum.ascii_case_insensitive", &["eaci"], |s| {
             s.aci = true;
